@@ -477,8 +477,13 @@ class Inliner:
                 return False
             return walk(blk["stmts"]) or walk({k: v for k, v in blk["term"].items() if k != "f"})
 
+        used = {}            # local -> number of leading variants of its chain that a folded switch has consumed
+
+        def pending():
+            return any(used.get(l, 0) < len(ch) for l, ch in facts.items())
+
         for _ in range(18):
-            if cur is None or cur in seen or not facts or rec["blocks"][cur].get("cleanup"):
+            if cur is None or cur in seen or not facts or not pending() or rec["blocks"][cur].get("cleanup"):
                 break
             cb_ = rec["blocks"][cur]
             trivial = not cb_["stmts"] and cb_["term"]["k"] in ("goto", "drop")
@@ -523,9 +528,11 @@ class Inliner:
                         idx = [int(k) for k, v in vars_.items() if v == want]
                         if len(idx) == 1:
                             dconst[lhs[0]] = idx[0]
+                            used[p[0]] = max(used.get(p[0], 0), 1 if len(p) == 1 else 2)
                     continue
                 if len(lhs) == 1 and lhs[0] in facts:
                     del facts[lhs[0]]
+                    used.pop(lhs[0], None)
                 if len(lhs) == 1 and lhs[0] in dconst:
                     del dconst[lhs[0]]
                 if rv["r"] == "un" and rv.get("op") == "Not" and len(lhs) == 1:
@@ -547,6 +554,7 @@ class Inliner:
                 d = _op_place(t["o"])
                 if d is not None and len(d) == 1 and facts.get(d[0]) in (["true"], ["false"]):
                     dconst[d[0]] = 1 if facts[d[0]] == ["true"] else 0
+                    used[d[0]] = 1
                 if d is not None and len(d) == 1 and d[0] in dconst:
                     idx = dconst[d[0]]
                     tgt = t["otherwise"]
